@@ -1,13 +1,30 @@
-// C03 — every offered covariance model is a valid (positive-definite) model, with the published closed forms and the
+// C03 - every offered covariance model is a valid (positive-definite) model, with the published closed forms and the
 // range measured along the rotated anisotropy axes.
 //
 // Case i  ->  pair (structure s, ndim d) = i mod 93 (ALL 31 ECov structures x d in {1,2,3}: complete table),
-//             draw index j = i div 93 selects the parameter class; everything else comes from the case PRNG.
+//             draw index j = i div 93 selects the parameter class (low, mid, high, exactly 0, exactly getParMax());
+//             everything else comes from the case PRNG.
 //  * sphere-only structures (Geometric, Poisson, LinearSph, Markov): only checked for being NOT in-domain on R^n;
 //  * in-domain pairs (CovFactory::getCovList(ctxt) contains the name AND CovAniso::isConsistent()): main sweep;
 //  * the other pairs: second sweep through the public factories: the library must refuse, or what it hands back must
 //    pass the same checks (keys C03:gate:<S>:ndim=<d>).
 // References: harness/common/ref_cov.hpp (closed forms, rotations), ref_linalg.hpp (Jacobi eigenvalues, Cholesky).
+//
+// Oracles (name -> key):
+//   gate-sphere                     C03:gate:<S>:ndim=<d>          sphere-only structure is not in-domain on R^n
+//   accept                          C03:accept:<S>:ndim=<d>        in-domain + admissible parameters => constructible
+//   shape, finite                   C03:matrix-shape:<S>, C03:finite:<S>:ndim=<d>[:param-class=<c>]
+//   sym-rect, sym-vs-rect, even     C03:symmetry:<S>               evalCovMatrix symmetric, == evalCovMatrixSymmetric, C(h)=C(-h)
+//   eval0, model-eval, cova-eval, rect-cross, block, unitary   C03:pointwise:<S>   all entry points agree with each other
+//   bound                           C03:bound:<S>:ndim=<d>[:param-class]   |C_ab(h)| <= sqrt(C_aa(0) C_bb(0))
+//   vario-mode, vario-eval          C03:vario-mode:<S>             asVario == C(0) - C(h)
+//   pd                              C03:pd:<S>:ndim=<d>[:param-class=<c>]  smallest eigenvalue >= -1e3 N eps lambda_max
+//   cpd, cpd-vario                  C03:cpd:<S>:ndim=<d>[...]      P^T K P and P^T(-gamma)P >= 0 on increments of order getMinOrder()
+//   closed-form, closed-form-axis, closed-form-incr   C03:closed-form:<S>[:param-class=<c>]
+//   range-echo, range-axis, support-out, support-in   C03:range-echo|range-axis|support:<S>[:param-class=<c>]
+//   (range-related oracles on the CovAniso::create* routes, parametrised structures: C03:factory-range:<factory>)
+//   sum-*                           C03:pd-sum|cpd-sum|finite:sum|bound:sum|closed-form:sum   a sum fails although no component alone does
+//   everything in the out-of-domain sweep: C03:gate:<S>:ndim=<d>
 #include "common/vh.hpp"
 #include "common/ref_linalg.hpp"
 #include "common/ref_cov.hpp"
@@ -18,12 +35,14 @@
 #include "Enum/ESpaceType.hpp"
 #include "Covariances/CovFactory.hpp"
 #include "Covariances/CovAniso.hpp"
+#include "Covariances/ACovFunc.hpp"
 #include "Covariances/CovContext.hpp"
 #include "Covariances/CovCalcMode.hpp"
 #include "Model/Model.hpp"
 #include "Db/Db.hpp"
 #include "Space/ASpaceObject.hpp"
 #include "Space/SpacePoint.hpp"
+#include "Space/SpaceRN.hpp"
 #include "Matrix/MatrixSquareSymmetric.hpp"
 #include "Matrix/MatrixRectangular.hpp"
 #include <memory>
@@ -58,6 +77,24 @@ static Gate gateOf(const ECov& t, int ndim, int nvar)
   VectorString lst = CovFactory::getCovList(ctxt);
   try
   {
+    if (refcov::sphereOnly(std::string(t.getKey())) && ndim >= 3)
+    {
+      // Building a CovAniso of the Markov structure in 3-D runs a 512^3 FFT (ACovFunc::computeCorrec): minutes and GBs.
+      // For the sphere-only structures in 3-D the gate predicate of CovAniso::isConsistent (space type and dimension)
+      // is therefore evaluated on the ACovFunc itself, which is what CovAniso::isConsistent reads.
+      std::unique_ptr<ACovFunc> f(CovFactory::createCovFunc(t, ctxt));
+      g.built      = f != nullptr;
+      g.name       = f->getCovName();
+      g.maxNDim    = (int)f->getMaxNDim();
+      g.consistent = f->getCompatibleSpaceR() && (f->getMaxNDim() <= 0 || (int)f->getMaxNDim() >= ndim);
+      g.minOrder   = f->getMinOrder();
+      g.hasRange   = f->hasRange();
+      g.hasParam   = f->hasParam();
+      g.parMax     = f->getParMax();
+      for (const auto& s : lst)
+        if (s == g.name) g.offered = true;
+      return g;
+    }
     // ACovFunc's constructor documents: throws "Cannot create such covariance function in that context"
     CovAniso c(t, ctxt);
     g.built      = true;
@@ -97,6 +134,12 @@ struct Comp
     if (!pclass.empty()) k += ":param-class=" + pclass;
     return k;
   }
+  std::string finiteKey(int ndim) const
+  {
+    std::string k = "C03:finite:" + key + ":ndim=" + std::to_string(ndim);
+    if (!pclass.empty()) k += ":param-class=" + pclass;
+    return k;
+  }
   std::string cpdKey(int ndim) const
   {
     std::string k = "C03:cpd:" + key + ":ndim=" + std::to_string(ndim);
@@ -104,6 +147,7 @@ struct Comp
     return k;
   }
   std::string endSuffix() const { return (pclass == "zero" || pclass == "max") ? ":param-class=" + pclass : ""; }
+  std::string classSuffix() const { return pclass.empty() ? "" : ":param-class=" + pclass; }
 };
 
 static bool isTestVal(double v) { return !std::isfinite(v) || std::fabs(v) > 1e29; }
@@ -150,10 +194,12 @@ static std::vector<double> genSill(Rng& r, int nvar)
   return s;
 }
 
-static void genGeometry(Rng& r, int ndim, Comp& c)
+static void genGeometry(Rng& r, int ndim, Comp& c, bool forceIso = false)
 {
   double a = r.loguni(0.5, 50.);
   c.ranges.assign(ndim, a);
+  c.angles.clear();
+  if (forceIso) return;
   if (ndim > 1 && !r.coin(0.2))
     for (int k = 1; k < ndim; k++) c.ranges[k] = a * r.loguni(0.2, 5.);
   c.angles.clear();
@@ -340,7 +386,7 @@ struct RefModel
 // -------------------------------------------------------------------------------------------------------------------
 // Model construction through the public API (three routes)
 // -------------------------------------------------------------------------------------------------------------------
-static const char* ROUTE[] = {"createFromParam", "setters", "createAnisotropic"};
+static const char* ROUTE[] = {"createFromParam", "setters", "createAnisotropic", "createIsotropic"};
 
 static MatrixSquareSymmetric sillMat(const Comp& c, int nvar)
 {
@@ -372,7 +418,16 @@ static std::unique_ptr<Model> buildModel(const std::vector<Comp>& comps, int ndi
     if (route == 0)
     {
       how = useScales ? "createFromParam(flagRange=false)" : "createFromParam";
-      if (ic == 0)
+      bool iso = angles.empty();
+      for (int k = 1; k < ndim; k++) iso = iso && c.ranges[k] == c.ranges[0];
+      if (iso && comps.size() == 1 && (c.ranges[0] > 3. || ndim == 1))
+      {
+        // isotropic structure given by the scalar 'range' argument and an explicit space
+        how += "(scalar range, space)";
+        SpaceRN space(ndim);
+        model.reset(Model::createFromParam(c.type, ranges[0], c.sill[0], c.param, VectorDouble(), sills, VectorDouble(), &space, flagRange));
+      }
+      else if (ic == 0)
         model.reset(Model::createFromParam(c.type, 1., c.sill[0], c.param, ranges, sills, angles, nullptr, flagRange));
       else
         model->addCovFromParam(c.type, 1., c.sill[0], c.param, ranges, sills, angles, flagRange);
@@ -390,6 +445,19 @@ static std::unique_ptr<Model> buildModel(const std::vector<Comp>& comps, int ndi
         else cov->setScales(ranges);
         cov->setSill(sillMat(c, nvar));
         if (!angles.empty()) cov->setAnisoAngles(angles);
+      }
+      else if (route == 3)
+      {
+        if (nvar == 1)
+        {
+          how = "CovAniso::createIsotropic";
+          cov.reset(CovAniso::createIsotropic(ctxt, c.type, ranges[0], c.sill[0], c.param, flagRange));
+        }
+        else
+        {
+          how = "CovAniso::createIsotropicMulti";
+          cov.reset(CovAniso::createIsotropicMulti(ctxt, c.type, ranges[0], sillMat(c, nvar), c.param, flagRange));
+        }
       }
       else
       {
@@ -591,7 +659,8 @@ static PdOut structuralPd(const Mat& Ms, const Mat& Mv, const Pts& X, int ndim, 
     mag2   = std::max(mag2, s2);
   }
   o.e1        = psdCheck(o.B1, o.mag1, NEIG);
-  o.e2        = psdCheck(B2, mag2, NEIG);
+  // gamma is obtained as K(0) - K(h): its rounding error is relative to |K|, not to |gamma|
+  o.e2        = psdCheck(B2, std::max(o.mag1, mag2), NEIG);
   o.ok        = o.e1.ok && o.e2.ok;
   o.evaluated = true;
   return o;
@@ -605,7 +674,8 @@ struct CaseCfg
   int ndim, nvar, route;
   bool gateSweep = false;
   std::string gateKey; // used instead of the pd / closed-form keys in the gate sweep
-  std::string via;     // ":via=<factory>" for the range-related oracles of route 2
+  std::string factoryKey; // key of the range-related oracles on the CovAniso::create* routes (parametrised structures)
+  bool representable = true; // every range / scadef is a scale the library accepts
   int NEIG;
 };
 
@@ -617,10 +687,16 @@ static Mat libMatrix(const AMatrix& m)
   return a;
 }
 
-// returns true when the structural PD check of the whole model passed
-static bool checkModel(Rng& r, Ctx& c, Model* model, RefModel& rm, const Pts& X, const CaseCfg& cfg, bool reportPd,
-                       bool* pdOk)
+// Verdicts of the oracles whose failure, for a sum of structures, is first attributed to the components
+struct Verdict
 {
+  bool finite = true, pd = true, closed = true, bound = true;
+  bool allOk() const { return finite && pd && closed && bound; }
+};
+// report = false: failures of the attributable oracles (finite, pd / cpd, bound, closed-form) are returned, not logged
+static Verdict checkModel(Rng& r, Ctx& c, Model* model, RefModel& rm, const Pts& X, const CaseCfg& cfg, bool report)
+{
+  Verdict V;
   const int ndim = cfg.ndim, nvar = cfg.nvar, n = (int)X.size(), N = n * nvar;
   const Comp& c0  = rm.comps[0];
   const bool single = rm.comps.size() == 1;
@@ -631,12 +707,12 @@ static bool checkModel(Rng& r, Ctx& c, Model* model, RefModel& rm, const Pts& X,
   for (size_t i = 1; i < rm.comps.size(); i++) names += "+" + rm.comps[i].key;
   std::string kStruct  = single ? c0.key : "sum";
   std::string nd       = ":ndim=" + std::to_string(ndim);
-  std::string kFinite  = K("finite", "C03:finite:" + kStruct + nd + (single && !c0.pclass.empty() ? ":param-class=" + c0.pclass : ""));
+  std::string kFinite  = K("finite", single ? c0.finiteKey(ndim) : "C03:finite:sum" + nd);
   std::string kSym     = K("sym", "C03:symmetry:" + kStruct + sfx);
   std::string kPoint   = K("point", "C03:pointwise:" + kStruct + sfx);
   std::string kVario   = K("vario", "C03:vario-mode:" + kStruct + sfx);
   std::string kBound   = K("bound", "C03:bound:" + kStruct + nd + (single && !c0.pclass.empty() ? ":param-class=" + c0.pclass : ""));
-  std::string kClosed  = K("closed", "C03:closed-form:" + kStruct + sfx + cfg.via);
+  std::string kClosed  = K("closed", cfg.factoryKey.empty() ? "C03:closed-form:" + kStruct + (single ? c0.classSuffix() : "") : cfg.factoryKey);
   std::string kPd      = K("pd", single ? c0.pdKey(ndim) : "C03:pd-sum" + nd);
   std::string detail0  = fmt("%s ndim=%d nvar=%d n=%d via %s", names.c_str(), ndim, nvar, n, ROUTE[cfg.route]);
 
@@ -651,7 +727,8 @@ static bool checkModel(Rng& r, Ctx& c, Model* model, RefModel& rm, const Pts& X,
   {
     c.truth("shape", K("shape", "C03:matrix-shape:" + kStruct), false,
             detail0 + fmt(": expected %d x %d, got sym %dx%d rect %dx%d vario %dx%d", N, N, Ms.nr, Ms.nc, Mr.nr, Mr.nc, Mv.nr, Mv.nc));
-    return false;
+    V.finite = false;
+    return V;
   }
   c.truth("shape", K("shape", "C03:matrix-shape:" + kStruct), true);
 
@@ -661,11 +738,12 @@ static bool checkModel(Rng& r, Ctx& c, Model* model, RefModel& rm, const Pts& X,
   for (auto* M : {&Ms, &Mr, &Mv})
     for (LD v : M->a)
       if (isTestVal((double)v)) { if (finite) firstBad = (double)v; finite = false; }
-  c.truth("finite", kFinite, finite, detail0 + fmt(": covariance matrix has an undefined / non-finite entry (%g); param=%g", firstBad, c0.param));
+  if (report || finite)
+    c.truth("finite", kFinite, finite, detail0 + fmt(": covariance matrix has an undefined / non-finite entry (%g); param=%g", firstBad, c0.param));
   if (!finite)
   {
-    if (pdOk) *pdOk = false;
-    return false;
+    V.finite = false;
+    return V;
   }
   LD scale = std::max(Mr.maxabs(), (LD)1e-300);
 
@@ -706,7 +784,8 @@ static bool checkModel(Rng& r, Ctx& c, Model* model, RefModel& rm, const Pts& X,
         for (int i = 0; i < n; i++)
           for (int j = 0; j < n; j++) worst = std::max(worst, std::fabs(Mr(a * n + i, b * n + j)) - bd);
       }
-    c.check("bound", kBound, worst <= tol, (double)std::max(worst, (LD)0), (double)tol, detail0 + fmt(": |C(h)| exceeds C(0) by %Lg (C(0)=%g) param=%g", worst, c00[0], c0.param));
+    V.bound = worst <= tol;
+    if (report || V.bound) c.check("bound", kBound, worst <= tol, (double)std::max(worst, (LD)0), (double)tol, detail0 + fmt(": |C(h)| exceeds C(0) by %Lg (C(0)=%g) param=%g", worst, c00[0], c0.param));
   }
   {
     // CovCalcMode asVario: "True to calculate variogram instead of covariance" -> gamma(h) = C(0) - C(h)
@@ -751,30 +830,100 @@ static bool checkModel(Rng& r, Ctx& c, Model* model, RefModel& rm, const Pts& X,
     c.check("vario-eval", kVario, e4 <= tol, (double)e4, (double)tol, detail0 + ": Model::eval(asVario) differs from the variogram-mode matrix");
   }
 
+  // ---- other entry points of the matrix builders: two different Dbs, one (ivar, jvar) block, unitary mode -----------
+  {
+    int m = 4;
+    Pts Y;
+    for (int t = 0; t < m; t++)
+    {
+      std::vector<double> y = X[r.irange(0, n - 1)];
+      if (t > 0)
+        for (auto& v : y) v += r.normal() * c0.ranges[0] * r.pick(std::vector<double> {0.01, 0.3, 2.});
+      Y.push_back(y); // Y[0] coincides with a data point
+    }
+    std::unique_ptr<Db> db2 = mkDb(Y, ndim);
+    Mat Mc = libMatrix(model->evalCovMatrix(db.get(), db2.get()));
+    bool shapeOk = Mc.nr == N && Mc.nc == nvar * m;
+    c.truth("shape", K("shape", "C03:matrix-shape:" + kStruct), shapeOk, detail0 + fmt(": evalCovMatrix(db1,db2) is %dx%d, expected %dx%d", Mc.nr, Mc.nc, N, nvar * m));
+    if (shapeOk)
+    {
+      LD e = 0, big = 0;
+      std::vector<SpacePoint> sq;
+      for (int t = 0; t < m; t++) sq.emplace_back(VectorDouble(Y[t]));
+      for (int a = 0; a < nvar; a++)
+        for (int b = 0; b < nvar; b++)
+          for (int i = 0; i < n; i++)
+            for (int t = 0; t < m; t++)
+            {
+              LD v = model->eval(sp[i], sq[t], a, b);
+              e    = std::max(e, std::fabs(v - Mc(a * n + i, b * m + t)));
+              big  = std::max(big, std::fabs(v));
+            }
+      LD tol = 1e-13 * std::max(scale, big);
+      c.check("rect-cross", kPoint, e <= tol, (double)e, (double)tol, detail0 + ": evalCovMatrix(db1, db2) entry differs from Model::eval");
+    }
+    int a = r.irange(0, nvar - 1), b = r.irange(0, nvar - 1);
+    Mat Mb = libMatrix(model->evalCovMatrix(db.get(), nullptr, a, b));
+    bool sb = Mb.nr == n && Mb.nc == n;
+    LD e = 0;
+    if (sb)
+      for (int i = 0; i < n; i++)
+        for (int j = 0; j < n; j++) e = std::max(e, std::fabs(Mb(i, j) - Mr(a * n + i, b * n + j)));
+    c.check("block", kPoint, sb && e <= 1e-13 * scale, sb ? (double)e : INFINITY, (double)(1e-13 * scale),
+            detail0 + fmt(": evalCovMatrix(ivar0=%d, jvar0=%d) is not the corresponding block of the full matrix", a, b));
+    if (single && nvar == 1 && c0.sill[0] > 0)
+    {
+      // CovCalcMode unitary: "True to calculate covariance without sill"
+      CovCalcMode munit(ECalcMember::LHS, false, true);
+      LD eu = 0;
+      for (int t = 0; t < std::min(n * n, 200); t++)
+      {
+        int i = r.irange(0, n - 1), j = r.irange(0, n - 1);
+        eu = std::max(eu, std::fabs((LD)model->eval(sp[i], sp[j], 0, 0, &munit) * (LD)c0.sill[0] - Mr(i, j)));
+      }
+      c.check("unitary", kPoint, eu <= 1e-12 * scale, (double)eu, (double)(1e-12 * scale), detail0 + ": unitary mode times the sill differs from the covariance");
+    }
+  }
+
   // ---- positive definiteness -------------------------------------------------------------------------------------
-  bool pd = true;
   PdOut po = structuralPd(Ms, Mv, X, ndim, nvar, order, cfg.NEIG);
   if (!po.evaluated) c.skip("cpd:no-increment");
   else if (order < 0)
   {
-    pd = po.ok;
-    if (reportPd)
+    V.pd = po.ok;
+    if (report || po.ok)
       c.check("pd", kPd, po.ok, (double)std::max((LD)0, -po.e1.lmin), (double)po.e1.tol,
               detail0 + fmt(": smallest eigenvalue %.6Lg (largest %.6Lg); param=%g ranges[0]=%g", po.e1.lmin, po.e1.lmax, c0.param, c0.ranges[0]));
   }
   else
   {
-    pd = po.ok;
-    if (reportPd)
+    V.pd = po.ok;
+    std::string diag;
+    if (!po.ok && report && n > 30)
+    {
+      // diagnostic only: is K (or -K) conditionally positive definite at a higher order ?
+      for (int o2 = order + 1; o2 <= 3; o2++)
+      {
+        Mat P2 = incrementBasis(X, ndim, o2);
+        if (P2.nc < 2) break;
+        Mat B = project(Ms, P2, nvar);
+        for (int i = 0; i < B.nr; i++)
+          for (int j = 0; j < i; j++) B(i, j) = B(j, i) = 0.5L * (B(i, j) + B(j, i));
+        std::vector<LD> ev = ref::eigsym(B);
+        diag += fmt(" [order %d: eig(P^T K P) in (%.3Lg, %.3Lg)]", o2, ev.front(), ev.back());
+      }
+    }
+    if (report || po.ok)
     {
       std::string kc = cfg.gateSweep ? cfg.gateKey : (single ? c0.cpdKey(ndim) : "C03:cpd-sum" + nd);
       c.check("cpd", kc, po.e1.ok, (double)std::max((LD)0, -po.e1.lmin), (double)po.e1.tol,
-              detail0 + fmt(": P^T K P has eigenvalue %.6Lg (largest %.6Lg) on increments of order %d; param=%g", po.e1.lmin, po.e1.lmax, order, c0.param));
+              detail0 + fmt(": P^T K P has eigenvalue %.6Lg (largest %.6Lg) on increments of order %d; param=%g", po.e1.lmin, po.e1.lmax, order, c0.param) + diag);
       c.check("cpd-vario", kc, po.e2.ok, (double)std::max((LD)0, -po.e2.lmin), (double)po.e2.tol,
               detail0 + fmt(": P^T (-gamma) P has eigenvalue %.6Lg (largest %.6Lg) on increments of order %d; param=%g", po.e2.lmin, po.e2.lmax, order, c0.param));
     }
     // closed form on the increments (the even polynomial part of a generalised covariance is not published)
-    if (rm.allClosed() && !cfg.gateSweep)
+    if (rm.allClosed() && !cfg.gateSweep && !cfg.representable) c.skip("closed-form:scale-not-representable");
+    if (rm.allClosed() && !cfg.gateSweep && cfg.representable)
     {
       Mat Kr(N, N);
       bool okAll = true;
@@ -798,17 +947,17 @@ static bool checkModel(Rng& r, Ctx& c, Model* model, RefModel& rm, const Pts& X,
         LD e   = 0;
         for (size_t i = 0; i < Br.a.size(); i++) e = std::max(e, std::fabs(Br.a[i] - po.B1.a[i]));
         LD tol = 1e3L * N * EPS * po.mag1 + 1e-9L * Br.maxabs();
-        c.check("closed-form-incr", kClosed, e <= tol, (double)e, (double)tol,
+        V.closed = e <= tol;
+        if (report || V.closed) c.check("closed-form-incr", kClosed, e <= tol, (double)e, (double)tol,
                 detail0 + fmt(": P^T K P differs from the published generalised covariance (max |ref| %.4Lg); param=%g", Br.maxabs(), c0.param));
       }
     }
   }
-  if (pdOk) *pdOk = pd;
-
-  if (cfg.gateSweep) return pd;
+  if (cfg.gateSweep) return V;
 
   // ---- closed form (stationary structures): every matrix entry -------------------------------------------------------
-  if (rm.allStationaryClosed())
+  if (rm.allStationaryClosed() && !cfg.representable) c.skip("closed-form:scale-not-representable");
+  if (rm.allStationaryClosed() && cfg.representable)
   {
     LD e = 0, eat = 0;
     bool okAll = true;
@@ -833,10 +982,11 @@ static bool checkModel(Rng& r, Ctx& c, Model* model, RefModel& rm, const Pts& X,
       }
     if (!okAll) c.skip("closed-form:ref-not-evaluable");
     LD tol = (bessel ? 1e-8L : 1e-10L) * scale;
-    c.check("closed-form", kClosed, e <= tol, (double)e, (double)tol,
+    V.closed = e <= tol;
+    if (report || V.closed) c.check("closed-form", kClosed, e <= tol, (double)e, (double)tol,
             detail0 + fmt(": entry (%d,%d) differs from the published closed form (ref %.12Lg); param=%g scadef=%g", wi, wj, eat, c0.param, c0.scadef));
   }
-  return pd;
+  return V;
 }
 
 // Single-structure oracles tied to the rotated axes: range echo, value at the range, compact support
@@ -845,15 +995,12 @@ static void checkAxes(Rng& r, Ctx& c, Model* model, RefModel& rm, const CaseCfg&
   const Comp& c0 = rm.comps[0];
   const int ndim = cfg.ndim, nvar = cfg.nvar;
   if (c0.g.hasRange <= 0) return;
-  std::string sfx = c0.endSuffix() + cfg.via;
+  auto RK = [&](const char* kind) { return cfg.factoryKey.empty() ? std::string("C03:") + kind + ":" + c0.key + c0.classSuffix() : cfg.factoryKey; };
   std::string det = fmt("%s ndim=%d via %s param=%g", c0.key.c_str(), ndim, ROUTE[cfg.route], c0.param);
   const CovAniso* cov = model->getCova(0);
   // the requested practical ranges are the ranges of the structure (skipped when range/scadef leaves [1e-15, 1e15]:
   // setRanges documents "should not be too small")
-  bool representable = true;
-  for (double v : c0.ranges)
-    if (!(v / c0.scadef > 1e-15 && v / c0.scadef < 1e15)) representable = false;
-  if (!representable || !std::isfinite(c0.scadef) || c0.scadef <= 0)
+  if (!cfg.representable)
   {
     c.skip("axes:scale-not-representable");
     return;
@@ -862,7 +1009,7 @@ static void checkAxes(Rng& r, Ctx& c, Model* model, RefModel& rm, const CaseCfg&
     VectorDouble got = cov->getRanges();
     double e = 0;
     for (int k = 0; k < ndim; k++) e = std::max(e, std::fabs(got[k] - c0.ranges[k]) / c0.ranges[k]);
-    c.check("range-echo", "C03:range-echo:" + c0.key + sfx, e <= 1e-12, e, 1e-12, det + ": getRanges() differs from the requested ranges");
+    c.check("range-echo", RK("range-echo"), e <= 1e-12, e, 1e-12, det + ": getRanges() differs from the requested ranges");
   }
   refcov::Rot R = rm.rots[0];
   int a0 = r.irange(0, nvar - 1), b0 = r.irange(0, nvar - 1);
@@ -886,12 +1033,12 @@ static void checkAxes(Rng& r, Ctx& c, Model* model, RefModel& rm, const CaseCfg&
       return cov->eval(s1, s2, a0, b0);
     };
     std::string dk = det + fmt(" axis=%d range=%g angles=%s", k, c0.ranges[k], jvec(c0.angles).c_str());
-    if (!std::isnan((double)frac))
+    if (!std::isnan((double)frac) && !compact)
     {
       // practical range: the covariance reaches its documented fraction of the sill at distance range_k along R e_k
       double v = at(1.0, k % 2 == 0);
       double tol = (frac == 0 ? 1e-9 : 1e-6) * smag;
-      c.check("range-axis", "C03:range-axis:" + c0.key + sfx, std::fabs(v - (double)frac * sab) <= tol, std::fabs(v - (double)frac * sab), tol,
+      c.check("range-axis", RK("range-axis"), std::fabs(v - (double)frac * sab) <= tol, std::fabs(v - (double)frac * sab), tol,
               dk + fmt(": C(range_k R e_k) = %g, expected %Lg x sill(%g)", v, frac, sab));
     }
     if (closed)
@@ -911,7 +1058,7 @@ static void checkAxes(Rng& r, Ctx& c, Model* model, RefModel& rm, const CaseCfg&
         if (!ok) { c.skip("closed-form:ref-not-evaluable"); continue; }
         double v = at(f, f > 1.5);
         double tol = (bessel ? 1e-8 : 1e-10) * smag;
-        c.check("closed-form-axis", "C03:closed-form:" + c0.key + sfx, std::fabs(v - (double)want) <= tol, std::fabs(v - (double)want), tol,
+        c.check("closed-form-axis", RK("closed-form"), std::fabs(v - (double)want) <= tol, std::fabs(v - (double)want), tol,
                 dk + fmt(": C(%g range_k R e_k) = %.12g, closed form %.12Lg", f, v, want));
       }
     }
@@ -921,14 +1068,14 @@ static void checkAxes(Rng& r, Ctx& c, Model* model, RefModel& rm, const CaseCfg&
       for (double f : {1.0000001, 1.3, 2.5})
       {
         double v = at(f, false);
-        c.check("support-out", "C03:support:" + c0.key + sfx, std::fabs(v) <= 1e-9 * smag, std::fabs(v), 1e-9 * smag,
+        c.check("support-out", RK("support"), std::fabs(v) <= 1e-9 * smag, std::fabs(v), 1e-9 * smag,
                 dk + fmt(": C = %g at %g x range along the rotated axis (must vanish beyond the range)", v, f));
       }
       if (std::fabs(sab) > 1e-3 * smag)
         for (double f : {0.5, 0.9})
         {
           double v = at(f, true);
-          c.check("support-in", "C03:support:" + c0.key + sfx, std::fabs(v) > 1e-7 * std::fabs(sab), 0, 0,
+          c.check("support-in", RK("support"), std::fabs(v) > 1e-7 * std::fabs(sab), 0, 0,
                   dk + fmt(": C = %g at %g x range along the rotated axis (must be non-zero inside the range)", v, f));
         }
     }
@@ -949,7 +1096,7 @@ static void checkAxes(Rng& r, Ctx& c, Model* model, RefModel& rm, const CaseCfg&
         for (int i = 0; i < ndim; i++) p2[i] += (double)(f * u[k] / nu * (LD)c0.ranges[k] * R.m[i][k]);
       SpacePoint s1 {VectorDouble(ndim, 0.)}, s2 {p2};
       double v = model->eval(s1, s2, a0, b0);
-      c.check("support-out", "C03:support:" + c0.key + sfx, std::fabs(v) <= 1e-9 * smag, std::fabs(v), 1e-9 * smag,
+      c.check("support-out", RK("support"), std::fabs(v) <= 1e-9 * smag, std::fabs(v), 1e-9 * smag,
               det + fmt(": C = %g at anisotropic distance %g ranges (off-axis)", v, f));
     }
   }
@@ -996,7 +1143,10 @@ static void run_case(Rng& r, Ctx& c)
   c0.key   = key;
   c0.g     = g;
   c0.param = drawParam(r, g, CLS[j % 8], c0.pclass);
-  genGeometry(r, ndim, c0);
+  // construction route: 0 Model::createFromParam/addCovFromParam, 1 CovAniso + setters, 2 CovAniso::createAnisotropic[Multi],
+  // 3 CovAniso::createIsotropic[Multi] (isotropic structures only)
+  int route = r.pick(std::vector<int> {0, 0, 0, 1, 1, 1, 2, 2, 3});
+  genGeometry(r, ndim, c0, route == 3);
   c0.sill = genSill(r, nvar);
 
   const bool inDomain = g.inDomain();
@@ -1023,12 +1173,11 @@ static void run_case(Rng& r, Ctx& c)
       ck.key   = std::string(ck.type.getKey());
       ck.g     = gateOf(ck.type, ndim, nvar);
       ck.param = drawParam(r, ck.g, r.irange(0, 2), ck.pclass);
-      genGeometry(r, ndim, ck);
+      genGeometry(r, ndim, ck, route == 3);
       ck.sill = genSill(r, nvar);
       comps.push_back(ck);
     }
   }
-  int route      = r.irange(0, 2);
   bool useScales = r.coin(0.25);
   int layout     = r.irange(0, 4);
   if (ndim == 1 && layout == 1) layout = 0;
@@ -1064,7 +1213,29 @@ static void run_case(Rng& r, Ctx& c)
   cfg.nvar  = nvar;
   cfg.route = route;
   cfg.NEIG  = 96;
-  if (route == 2) cfg.via = std::string(":via=") + (nvar == 1 ? "createAnisotropic" : "createAnisotropicMulti");
+  {
+    bool anyParam = false;
+    for (auto& cc : comps) anyParam = anyParam || cc.g.hasParam;
+    // (at the end 0 of the parameter interval the structures degenerate for reasons of their own: plain keys there)
+    if (route >= 2 && anyParam && c0.pclass != "zero")
+      cfg.factoryKey = std::string("C03:factory-range:") + (route == 2 ? "createAnisotropic" : "createIsotropic") + (nvar == 1 ? "" : "Multi");
+  }
+
+  // ---- representable scales --------------------------------------------------------------------------------------
+  // CovAniso::setRangeIsotropic / setRanges / setScale(s) document (messages "Range is too small", "A scale should not
+  // be too small") that ranges and scales below 1e-10 are not honoured; CovFactory::getScaleFactor gives the documented
+  // factor range = scadef * scale for (type, param). A requested range whose scale leaves [1e-9, 1e9] is therefore not
+  // expected to be honoured: a refusal is then not a finding and the oracles that depend on the range are skipped.
+  if (c0.pclass != "zero")
+    for (auto& cc : comps)
+      if (cc.g.hasRange > 0)
+      {
+        double sc = CovFactory::getScaleFactor(cc.type, cc.param);
+        for (double v : cc.ranges)
+          if (!(std::isfinite(sc) && sc > 0 && v / sc > 1e-9 && v / sc < 1e9)) cfg.representable = false;
+      }
+  const bool endClass = c0.pclass == "zero" || c0.pclass == "max";
+  if (c0.pclass == "zero") cfg.representable = false; // decided after the build from the library's own scadef
 
   // ---- build ----------------------------------------------------------------------------------------------------
   std::unique_ptr<Model> model;
@@ -1095,15 +1266,29 @@ static void run_case(Rng& r, Ctx& c)
     cfg.gateSweep = true;
     cfg.gateKey   = gateKey;
   }
+  else if (!model && (endClass || !cfg.representable))
+  {
+    // an end of the parameter interval, or a scale the library documents as too small: refusing is safe
+    c.skip(endClass ? "accept:refused-at-parameter-end" : "accept:scale-not-representable");
+    return;
+  }
   else
   {
-    c.truth("accept", "C03:accept:" + key + ":ndim=" + std::to_string(ndim) + c0.endSuffix(), model != nullptr,
+    c.truth("accept", "C03:accept:" + key + ":ndim=" + std::to_string(ndim), model != nullptr,
             fmt("in-domain structure with admissible parameters refused via %s: %s (param=%g)", how.c_str(), refusal.c_str(), c0.param));
     if (!model) return;
   }
 
   // documented scale factors, read from the built structures
-  for (size_t k = 0; k < comps.size(); k++) comps[k].scadef = model->getCova((int)k)->getScadef();
+  if (c0.pclass == "zero") cfg.representable = true;
+  for (size_t k = 0; k < comps.size(); k++)
+  {
+    comps[k].scadef = model->getCova((int)k)->getScadef();
+    if (comps[k].g.hasRange > 0)
+      for (double v : comps[k].ranges)
+        if (!(std::isfinite(comps[k].scadef) && comps[k].scadef > 0 && v / comps[k].scadef > 1e-9 && v / comps[k].scadef < 1e9))
+          cfg.representable = false;
+  }
 
   RefModel rm;
   rm.ndim  = ndim;
@@ -1114,64 +1299,63 @@ static void run_case(Rng& r, Ctx& c)
   Pts X = genPoints(r, ndim, n, layout, s, c0);
   c.putn("n", (double)X.size());
 
-  bool pdOk = true;
   bool single = comps.size() == 1;
   if (cfg.gateSweep)
   {
-    bool ok = checkModel(r, c, model.get(), rm, X, cfg, true, &pdOk);
-    (void)ok;
+    checkModel(r, c, model.get(), rm, X, cfg, true);
     return;
   }
-  // sums: first find out whether the whole model passes; a failure is attributed to the components that fail alone
-  checkModel(r, c, model.get(), rm, X, cfg, single, &pdOk);
-  if (!single)
+  // sums: failures of the attributable oracles are first looked for in each component alone (same points, same
+  // parameters); the sum is reported only when it fails although no component does
+  Verdict V = checkModel(r, c, model.get(), rm, X, cfg, single);
+  if (single)
   {
-    bool attributed = false;
-    if (!pdOk)
-    {
-      std::unique_ptr<Db> db = mkDb(X, ndim);
-      CovCalcMode mvario(ECalcMember::LHS, true);
-      for (size_t k = 0; k < comps.size(); k++)
-      {
-        std::vector<Comp> one {comps[k]};
-        std::string h2;
-        std::unique_ptr<Model> m1 = buildModel(one, ndim, nvar, 1, false, h2);
-        if (!m1) continue;
-        Mat Ms = libMatrix(m1->evalCovMatrixSymmetric(db.get()));
-        Mat Mv = libMatrix(m1->evalCovMatrix(db.get(), nullptr, -1, -1, VectorInt(), VectorInt(), &mvario));
-        bool fin = true;
-        for (LD v : Ms.a)
-          if (isTestVal((double)v)) fin = false;
-        for (LD v : Mv.a)
-          if (isTestVal((double)v)) fin = false;
-        int o1   = one[0].g.minOrder;
-        bool ok1 = fin;
-        LD lmin = 0, tol = 0;
-        if (fin)
-        {
-          PdOut p1 = structuralPd(Ms, Mv, X, ndim, nvar, o1, cfg.NEIG);
-          ok1      = p1.ok;
-          lmin     = std::min(p1.e1.lmin, p1.e2.lmin);
-          tol      = p1.e1.lmin <= p1.e2.lmin ? p1.e1.tol : p1.e2.tol;
-        }
-        if (!ok1)
-        {
-          attributed = true;
-          c.check(o1 < 0 ? "pd" : "cpd", o1 < 0 ? one[0].pdKey(ndim) : one[0].cpdKey(ndim), false, (double)-lmin, (double)tol,
-                  fmt("%s ndim=%d nvar=%d n=%d (component of a sum, alone on the same points): smallest eigenvalue %.6Lg; param=%g",
-                      one[0].key.c_str(), ndim, nvar, (int)X.size(), lmin, one[0].param));
-        }
-      }
-    }
-    // the sum itself is reported when it fails although no stationary component fails alone
-    std::string nd = ":ndim=" + std::to_string(ndim);
-    if (order < 0)
-      c.truth("pd-sum", "C03:pd-sum" + nd, pdOk || attributed, "sum of structures that are each positive definite on this point set is not");
-    else
-      c.truth("cpd-sum", "C03:cpd-sum" + nd, pdOk || attributed, "sum with an intrinsic structure is not conditionally positive definite on the authorised increments");
+    if (V.finite) checkAxes(r, c, model.get(), rm, cfg);
+    return;
   }
-  else
-    checkAxes(r, c, model.get(), rm, cfg);
+  Verdict A; // "and" of the components' verdicts
+  if (!V.allOk())
+  {
+    for (size_t k = 0; k < comps.size(); k++)
+    {
+      std::vector<Comp> one {comps[k]};
+      std::string h2;
+      std::unique_ptr<Model> m1;
+      try
+      {
+        m1 = buildModel(one, ndim, nvar, route, useScales, h2);
+      }
+      catch (const std::exception&)
+      {
+      }
+      if (!m1) continue;
+      RefModel r1;
+      r1.ndim  = ndim;
+      r1.nvar  = nvar;
+      r1.comps = one;
+      r1.prepare();
+      CaseCfg cf1 = cfg;
+      if (!(route >= 2 && one[0].g.hasParam)) cf1.factoryKey = "";
+      c.probe("sum-attribution");
+      Verdict Vk = checkModel(r, c, m1.get(), r1, X, cf1, true);
+      A.finite   = A.finite && Vk.finite;
+      A.pd       = A.pd && Vk.pd;
+      A.closed   = A.closed && Vk.closed;
+      A.bound    = A.bound && Vk.bound;
+    }
+  }
+  std::string nd = ":ndim=" + std::to_string(ndim);
+  std::string names = comps[0].key;
+  for (size_t k = 1; k < comps.size(); k++) names += "+" + comps[k].key;
+  c.truth("sum-finite", "C03:finite:sum" + nd, V.finite || !A.finite, names + ": the sum has a non-finite entry although every component alone is finite");
+  if (V.finite)
+  {
+    c.truth(order < 0 ? "sum-pd" : "sum-cpd", (order < 0 ? "C03:pd-sum" : "C03:cpd-sum") + nd, V.pd || !A.pd,
+            names + ": the sum is not (conditionally) positive definite on this point set although every component alone is");
+    c.truth("sum-bound", "C03:bound:sum" + nd, V.bound || !A.bound, names + ": |C(h)| > C(0) for the sum although it holds for every component");
+    c.truth("sum-closed-form", cfg.factoryKey.empty() ? "C03:closed-form:sum" : cfg.factoryKey, V.closed || !A.closed,
+            names + ": the sum differs from the sum of the published closed forms although every component alone agrees");
+  }
 }
 
 int main(int argc, char** argv) { return run_main(argc, argv, "C03", run_case); }
